@@ -20,6 +20,10 @@ FromString(w, oc, dis, oo) == last' = [op |-> "interpret", z |-> cur, w |-> w, o
 \* the same string as a relativeTo option (RelativeTo::try_from_str): a second entry point with fixed options compatible / reject
 RelTo(w, oc) == last' = [op |-> "relto", z |-> cur, w |-> w, oc |-> oc, dis |-> "compatible", oo |-> "reject",
                          out |-> Interpret(cur, w, oc.k, oc.o, "compatible", "reject", TRUE)] /\ UNCHANGED cur
+\* PlainDate.toZonedDateTime: without a time the start of the day (the first instant of the local day, also when midnight is skipped);
+\* with the time 00:00 the wall-clock reading midnight under compatible (pushed forward by the gap)
+FromDate(day, tt) == last' = [op |-> "fromDate", z |-> cur, day |-> day, tt |-> tt,
+                              out |-> IF tt = "none" THEN Ok(StartOfDay(cur, day * 86400)) ELSE Disambiguate(cur, day * 86400, "compatible")] /\ UNCHANGED cur
 \* property bags: offsets of whole minutes only, never Z
 BagCands(z, w) == {c \in OffCands(z, w) : c.k # "z" /\ c.o % 60 = 0}
 FromBag(w, oc, dis, oo) == last' = [op |-> "bag", z |-> cur, w |-> w, oc |-> oc, dis |-> dis, oo |-> oo,
@@ -34,6 +38,7 @@ Next == /\ (OneStep => last = None)
            \/ \E w \in IWalls, dis \in {"compatible", "reject"}, oo \in OffOpts : \E oc \in OffCands(cur, w) : FromString(w, oc, dis, oo)
            \/ \E w \in IWalls, dis \in {"compatible", "later"}, oo \in OffOpts : \E oc \in BagCands(cur, w) : FromBag(w, oc, dis, oo)
            \/ \E w \in IWalls : \E oc \in OffCands(cur, w) : RelTo(w, oc)
+           \/ \E day \in {-1, 0, 1, 2}, tt \in {"none", "midnight"} : FromDate(day, tt)
 Spec == Init /\ [][Next]_vars
 
 \* every candidate maps back to the reading
@@ -51,6 +56,10 @@ DisLaw == (last.op = "fromLocal") =>
                       \* shifted forward by the gap under compatible/later, backward under earlier - whatever its size
                       /\ (last.dis \in {"compatible", "later"} => Wall(last.z, last.out.val) = last.w + GapOf(last.z, last.w))
                       /\ (last.dis = "earlier" => Wall(last.z, last.out.val) = last.w - GapOf(last.z, last.w)))
+\* both readings of a date land on that local day or, in a gap, just past it; without a time nothing of the day comes earlier
+FromDateLaw == last.op = "fromDate" /\ last.out.kind = "ok" =>
+  /\ Wall(last.z, last.out.val) >= last.day * 86400
+  /\ (last.tt = "none" => \A t \in (last.out.val - 7200)..(last.out.val - 1) : Wall(last.z, t) < last.day * 86400 \/ Wall(last.z, t) >= last.day * 86400 + 86400)
 WallLaw == last.op = "wall" => last.out.val.w = last.t + last.out.val.off /\ last.out.val.off \in AllOffsets(last.z)
 InterpretLaw == last.op \in {"interpret", "relto"} =>
   /\ (last.oc.k = "z" => last.out = Ok(last.w))
